@@ -499,4 +499,36 @@ theorem toC_toPath (p : CPath) : Path.toC p.toPath = some p := by
     rw [ih]
     rfl
 
+/-- the byte view of the character view is the identity (strictness of the UTF-8 decoder). -/
+theorem toPath_of_toC : ∀ (p : Path) (cp : CPath), Path.toC p = some cp → cp.toPath = p
+  | [], cp, h => by
+    simp [Path.toC] at h
+    subst h; rfl
+  | s :: r, cp, h => by
+    simp only [Path.toC, List.mapM_cons] at h
+    cases hs : Seg.toC s with
+    | none => simp [hs] at h
+    | some cs =>
+      cases hr : List.mapM Seg.toC r with
+      | none => simp [hs, hr] at h
+      | some cr =>
+        simp [hs, hr] at h
+        subst h
+        have ih := toPath_of_toC r cr hr
+        have h1 : cs.toSeg = s := by
+          cases s with
+          | field k =>
+            simp only [Seg.toC] at hs
+            cases hd : Utf8.decode k with
+            | none => simp [hd] at hs
+            | some v =>
+              simp [hd] at hs
+              subst hs
+              simp [CSeg.toSeg, Utf8.encode_decode k v hd]
+          | index i =>
+            simp [Seg.toC] at hs
+            subst hs; rfl
+        simp [CPath.toPath, h1] at ih ⊢
+        exact ih
+
 end PathText
